@@ -186,6 +186,13 @@ Example C05_retry_reaches_healthy_nonvacuous :
                     EAttempt 10 2 KOk RxFull true 11]).
 Proof. exact exA_run. Qed.
 
+(* the selector the case files evaluate (sel_of: first, round robin, hashing) is that policy selector *)
+Theorem C05_retry_case_selector_is_policy_selector : forall p rp st rs av,
+  rpol_of p = Some rp ->
+  fst (sel_of p st av) = fst (rsel rp (st, rs) av) /\ snd (sel_of p st av) = fst (snd (rsel rp (st, rs) av)).
+Proof. exact sel_of_is_rsel. Qed.
+Print Assumptions C05_retry_case_selector_is_policy_selector.
+
 (* neither hypothesis can be dropped *)
 Theorem C05_retry_reaches_healthy_without_fail_timeout_refuted :
   exists c scr t tr,
@@ -252,6 +259,8 @@ Theorem C05_attempt_body_complete :
     rx_bytes body rx = None \/ rx_bytes body rx = Some body.
 Proof. exact body_complete_top. Qed.
 Print Assumptions C05_attempt_body_complete.
+Example C05_attempt_body_complete_nonvacuous : negb (t_hasbody exA_c) || t_buf exA_c = true.
+Proof. exact exA_buffered. Qed.
 (* ... false for the unbuffered single-host pool: max_fails 2, the host is tried again, the second
    forward finds the body closed and the request ends with 502 *)
 Theorem C05_attempt_body_complete_unbuffered_refuted :
